@@ -7,13 +7,15 @@ EXTENDS Naturals, Sequences, TLC, Json
 CONSTANTS W, MaxOps
 \* slowabort: like getslow (a reader on another worker attaches while the body arrives), but the origin drops the
 \* connection in the middle of the body: that version is never complete, nobody may present it as complete
-Ops == {"get", "getslow", "reload", "post", "pair", "slowabort"}
+\* reval: a forced revalidation through worker w answered 304 with a larger header block (the shared entry's headers are
+\* rewritten), then a get through the other worker
+Ops == {"get", "getslow", "reload", "post", "pair", "slowabort", "reval"}
 VARIABLES shared, nextv, lastInval, hist
 vars == <<shared, nextv, lastInval, hist>>
 Init == shared = 0 /\ nextv = 1 /\ lastInval = 0 /\ hist = <<>>
 Do(op, w) ==
   /\ Len(hist) < MaxOps /\ hist' = Append(hist, <<op, w>>)
-  /\ CASE op \in {"get", "getslow", "pair"} -> IF shared = 0 THEN shared' = nextv /\ nextv' = nextv + 1 /\ UNCHANGED lastInval ELSE UNCHANGED <<shared, nextv, lastInval>>
+  /\ CASE op \in {"get", "getslow", "pair", "reval"} -> IF shared = 0 THEN shared' = nextv /\ nextv' = nextv + 1 /\ UNCHANGED lastInval ELSE UNCHANGED <<shared, nextv, lastInval>>
        [] op = "slowabort" -> IF shared = 0 THEN nextv' = nextv + 1 /\ UNCHANGED <<shared, lastInval>> ELSE UNCHANGED <<shared, nextv, lastInval>>
        [] op = "reload" -> shared' = nextv /\ nextv' = nextv + 1 /\ UNCHANGED lastInval
        [] op = "post" -> shared' = 0 /\ lastInval' = nextv /\ nextv' = nextv + 1
